@@ -122,6 +122,17 @@ class State:
                           expected="finite score and gradient", detail={"A": A})
             return
         tol = self.tol(gem, P, A, v0, cname)
+        # Clipping at epsilon replaces exact zeros / ones by epsilon / 1-epsilon: rows then sum to 1 + O(K*epsilon), an
+        # "empty" cluster keeps a mass of epsilon, one-hot rows are only nearly one-hot.  The identities below that are
+        # stated for exact zeros hold up to that disturbance: invisible at the default 1e-12 (covered by the 1e-9
+        # tolerances), but a user epsilon of 1e-3 moves the scores by about K*epsilon*log(1/epsilon) [times n for the
+        # unbounded chi-square distance].  Permutation relations are exact whatever epsilon is.
+        eps_ = float(gem.epsilon)
+        unit_ = 1.0 if A is None else (float(np.sqrt(np.max(np.abs(A)))) if cname == "MMDGEMINI" else float(np.max(np.abs(A))))
+        # (the chi-square distance between nearly disjoint clipped distributions is of order 1/epsilon itself: relative)
+        eps_slack = 16 * (K + 1) * eps_ * ((1 + math.log(1 / eps_) + math.log(max(N, 1))) * max(unit_, 1e-300) + (abs(v0) if dist == "chi2" else 0.0))
+        if eps_ > 1e-11:
+            ctx.count("calls_with_user_epsilon")
         # bounds
         ctx.count("bound:nonneg")
         # clipping one-hot rows at epsilon leaves rows summing to 1 + (K-2)*epsilon: allow a few K*epsilon
@@ -132,7 +143,7 @@ class State:
                           detail={"A": A})
         if dist in ("tv", "hellinger"):
             ctx.count("bound:le_one")
-            if value > 1 + 1e-12:
+            if value > 1 + 1e-12 + 4 * K * eps_:
                 ctx.violation("le-one", "score-above-one/" + mech, observed={"score": value, "P": P}, expected="<= 1")
         zero_diag = dist != "wasserstein" or A is None or bool(np.all(np.diag(np.asarray(A)) == 0))
         if not zero_diag:
@@ -140,13 +151,13 @@ class State:
         if N >= 1 and np.all(np.abs(P - P[0]) == 0) and zero_diag:
             ctx.count("bound:constant_rows")
             want = 0.5 if dist == "chi2" else 0.0
-            if abs(value - want) > tol:
+            if abs(value - want) > tol + (eps_slack if closed else 0.0):
                 ctx.violation("constant-rows", "constant-predictions-nonzero/" + mech,
                               observed={"score": value, "P": P}, expected=want, detail={"A": A, "tol": tol})
         if dist == "kl" and not gem.ovo and N % K == 0 and np.all((P == 0) | (P == 1)) and np.all(P.sum(1) == 1) \
                 and np.all(P.sum(0) == N // K):
             ctx.count("bound:mi_logK")
-            if abs(value - math.log(K)) > 1e-9:
+            if abs(value - math.log(K)) > 1e-9 + eps_slack:
                 ctx.violation("mi-logK", "mi-balanced-partition/" + mech, observed={"score": value, "P": P},
                               expected=math.log(K))
         compared = 0
@@ -171,7 +182,7 @@ class State:
         # cluster permutation
         cp = rng.permutation(K)
         if K >= 2 and not np.all(cp == np.arange(K)):
-            v2, g2 = orig(gem, P[:, cp].copy(), A, True)
+            v2, g2 = orig(gem, (P[:, cp] if rng.random() < 0.5 else P[:, cp].copy()), A, True)   # Fortran / C order
             v2, g2 = _val(v2), np.asarray(g2)
             ctx.count("rel:cluster_perm")
             compared += 1
@@ -187,13 +198,25 @@ class State:
         # empty cluster, inserted at a random position (first, middle or last column)
         pos_e = int(rng.integers(0, K + 1))
         Pe = np.insert(P, pos_e, 0.0, axis=1)
-        v3, g3 = orig(gem, Pe.copy(), A, True)
+        # predictions reach evaluate in whatever memory layout the caller has: C order, Fortran order (what P[:, perm] or
+        # a transposed product gives), or a strided view of a wider array
+        layout = int(rng.integers(0, 3))
+        if layout == 1:
+            Pe_in = np.asfortranarray(Pe)
+        elif layout == 2:
+            wide = np.zeros((N, 2 * (K + 1)))
+            wide[:, ::2] = Pe
+            Pe_in = wide[:, ::2]
+        else:
+            Pe_in = Pe.copy()
+        ctx.count("rel:empty_cluster_layout_%s" % ("C", "F", "strided")[layout])
+        v3, g3 = orig(gem, Pe_in, A, True)
         v3, g3 = _val(v3), np.asarray(g3)
         ctx.count("rel:empty_cluster")
         if pos_e < K:
             ctx.count("rel:empty_cluster_not_last")
         compared += 1
-        if not (abs(v3 - v0) <= tol + 1e-9 * (1.0 if A is None else 0.0)):
+        if not (abs(v3 - v0) <= tol + 1e-9 * (1.0 if A is None else 0.0) + eps_slack):
             ctx.violation("empty-cluster", "empty-cluster-score/" + mech,
                           observed={"score": v0, "with_empty_cluster": v3, "position": pos_e, "P": P}, expected="equal",
                           detail={"A": A, "tol": tol})
